@@ -17,6 +17,38 @@ def _fresnel(db, it, dom, name):
     return fi, as_rat(dom, ps[0].value, fi.qual + ' return')
 
 
+def batch_rules(run, db):
+    """multilayer_stack_rt: the batched branch of every `if angles.ndim > 1` is the scalar branch with `[k]` replaced by `[:, k]`
+    (same callee, same arguments, same keyword flags)."""
+    import copy
+    f = db.func('prysm.thinfilm.multilayer_stack_rt')
+    ifs = [n for n in walk_no_nested(f.node) if isinstance(n, ast.If) and ast.unparse(n.test).replace(' ', '') == 'angles.ndim>1' and n.orelse]
+    if len(ifs) < 3:
+        raise AnalysisError('multilayer_stack_rt: expected three batched/scalar branch pairs, found %d' % len(ifs))
+
+    class Norm(ast.NodeTransformer):
+        def visit_Subscript(self, node):
+            self.generic_visit(node)
+            sl = node.slice
+            if isinstance(sl, ast.Tuple) and len(sl.elts) == 2 and isinstance(sl.elts[0], ast.Slice) and sl.elts[0].lower is None and sl.elts[0].upper is None and sl.elts[0].step is None:
+                return ast.Subscript(value=node.value, slice=sl.elts[1], ctx=node.ctx)
+            if isinstance(node.value, ast.Attribute) and node.value.attr == 'shape' and isinstance(sl, ast.Constant) and sl.value == 1:
+                return ast.Call(func=ast.Name(id='len', ctx=ast.Load()), args=[node.value.value], keywords=[])
+            return node
+    for n in ifs:
+        a = [ast.dump(Norm().visit(copy.deepcopy(st))) for st in n.body]
+        b = [ast.dump(Norm().visit(copy.deepcopy(st))) for st in n.orelse]
+        ta = '; '.join(ast.unparse(Norm().visit(copy.deepcopy(st))) for st in n.body)
+        tb = '; '.join(ast.unparse(st) for st in n.orelse)
+        run.check(a == b, 'C17.batch', f.qual, 'branch pair at `%s`' % norm_stmt(n.body[0])[:50], 'the batched branch is the scalar branch applied along the batch axis (same calls, arguments and flags)',
+                  'batched and scalar branches differ beyond the batch index: batched `%s` vs scalar `%s` -- batched stacks are evaluated differently from the same stacks one at a time' % (ta, tb), f.loc(n))
+    # the angle of incidence is converted to radians exactly once and every consumer is told so
+    conv = [n for n in walk_no_nested(f.node) if isinstance(n, ast.Assign) and ast.unparse(n.targets[0]) == 'aoi' and 'radians' in ast.unparse(n.value)]
+    calls = [n for n in walk_no_nested(f.node) if isinstance(n, ast.Call) and ast.unparse(n.func) == 'snell_aor']
+    okd = len(conv) == 1 and len(calls) >= 2 and all(any(k.arg == 'degrees' and isinstance(k.value, ast.Constant) and k.value.value is False for k in c.keywords) for c in calls)
+    run.check(okd, 'C17.batch', f.qual, 'angle units', 'aoi is converted to radians once and every snell_aor call is told degrees=False', 'an snell_aor call re-converts the already-radian angle of incidence (degrees flag missing)', f.loc())
+
+
 def check(run, db, tier):
     it, dom = norm_interp(db)
     R = dom.R
@@ -183,6 +215,9 @@ def check(run, db, tier):
             run.finding('C17.pure', fi.qual, norm_stmt(st), 'in-place write through `%s`, which may alias the caller\'s array: a second call (other polarisation, per-element loop over the same stack) sees modified data' % name, fi.loc(st))
         if not muts:
             run.ok('C17.pure', fi.qual, 'no in-place write through an argument or a view of one')
+    run.rule('C17.batch', 'multilayer_stack_rt: batched branches equal the scalar branches along the batch axis; the angle of incidence is converted to radians once')
+    run.group(batch_rules, run, db)
+    run.require_instances('C17.batch', 4)
     run.require_instances('C17.energy', 2)
     run.require_instances('C17.interface', 4)
     run.require_instances('C17.matrix', 6)
